@@ -44,6 +44,9 @@ type Exec struct {
 	labelCount   map[string]int
 	globals      map[string]Val
 	assumeFalseAtExit bool
+	known     []*KnownFinding
+	topFrame  *Frame
+	entryRegs map[ssa.Value]Val
 }
 
 type loopInfo struct {
